@@ -46,7 +46,8 @@ type String struct {
 // is identical to String.ContainsExpression method except for taking a standard string value.
 func ContainsExpression(s string) bool {
 	i := strings.Index(s, "${{")
-	return i >= 0 && i < strings.Index(s, "}}")
+	// The closing braces are looked for after the opening: "}}" may stand in the text before it
+	return i >= 0 && strings.Contains(s[i:], "}}")
 }
 
 // ContainsExpression returns whether the string contains at least one ${{ }} expression.
